@@ -93,6 +93,12 @@ func unixMilliToTime(unixMilli int64) time.Time {
 }
 
 func ParseCron(cronExp string) (cron.Schedule, error) {
+	// the parser cuts a leading time zone off at the first space and panics when there is none:
+	// a time zone must be followed by a spec
+	if (strings.HasPrefix(cronExp, "TZ=") || strings.HasPrefix(cronExp, "CRON_TZ=")) && !strings.Contains(cronExp, " ") {
+		return nil, errors.New("time zone without a cron spec: " + cronExp)
+	}
+
 	return cron.NewParser(cron.SecondOptional | cron.Minute | cron.Hour | cron.Dom | cron.Month | cron.Dow | cron.Descriptor).Parse(cronExp)
 }
 
